@@ -1097,6 +1097,35 @@ Proof.
   rewrite <- app_assoc. f_equal. exact I1.
 Qed.
 
+(* ------------------------------------------------------------------ the code on the wire is ASCII *)
+Lemma parse_code : forall raw c sep t, parse_reply_line raw = Some (c, sep, t) -> is_code c.
+Proof.
+  intros raw c sep t H. unfold parse_reply_line in H.
+  destruct (strip_cr raw) as [|d1 [|d2 [|d3 [|s txt]]]]; try discriminate.
+  destruct (((49 <=? d1) && (d1 <=? 53)) && is_digit d2 && is_digit d3 && is_sep s) eqn:E; [|discriminate].
+  inversion H; subst. apply andb_true_iff in E. destruct E as [E _].
+  apply andb_true_iff in E. destruct E as [E E3]. apply andb_true_iff in E. destruct E as [E1 E2].
+  exists d1, d2, d3. repeat split; assumption.
+Qed.
+
+Lemma wf_code : forall c pre txts, wf_reply_lines c pre txts -> is_code c.
+Proof.
+  intros c [|r pre] [|t txts] W; cbn in W; try contradiction.
+  destruct pre.
+  - destruct W as [_ [sep [P _]]]. exact (parse_code _ _ _ _ P).
+  - destruct W as [P _]. exact (parse_code _ _ _ _ P).
+Qed.
+
+(* a byte outside ASCII in one of the three code positions: not a reply line *)
+Lemma non_ascii_code_line : forall raw d1 d2 d3 rest, strip_cr raw = d1 :: d2 :: d3 :: rest ->
+  ((128 <=? d1) || (128 <=? d2) || (128 <=? d3)) = true -> parse_reply_line raw = None.
+Proof.
+  intros raw d1 d2 d3 rest E H. unfold parse_reply_line. rewrite E.
+  destruct rest as [|s txt]; [reflexivity|].
+  destruct (((49 <=? d1) && (d1 <=? 53)) && is_digit d2 && is_digit d3 && is_sep s) eqn:B; [|reflexivity].
+  exfalso. unfold is_digit in B. lia.
+Qed.
+
 Section Sequence.
   Variable udigit uspace : N -> bool.
   Hypothesis Hd46 : udigit 46 = false.
@@ -1253,6 +1282,17 @@ Section ReplySends.
     intros ops t buf chunks W Hi Hsd Hne Hs. rewrite rops_out_eq in Hs.
     apply written_roundtrip; assumption.
   Qed.
+  (* what Reply.recv returns has a code of three ASCII digits, the first 1..5 *)
+  Lemma recv_code_ascii : forall buf chunks r b' ch',
+    reply_recv udigit uspace buf chunks = GotReply r b' ch' -> is_code (r_code r).
+  Proof.
+    intros buf chunks r b' ch' H. unfold reply_recv in H.
+    destruct (recv_reply buf chunks) as [c body b1 ch1|b1 ch1|] eqn:R; try discriminate.
+    destruct (utf8_dec body) as [t0|]; [|discriminate].
+    destruct (code_ok c); [|discriminate]. inversion H; subst.
+    rewrite (new_reply_code udigit uspace).
+    destruct (ok_is_wellformed _ _ _ _ _ _ R) as [pre [txts [_ [W _]]]]. exact (wf_code _ _ _ W).
+  Qed.
 End ReplySends.
 
 (* Examples for the setter operations (ASCII classes): the handler pattern
@@ -1289,4 +1329,7 @@ Example ops_failed_send_writes_nothing :   (* Reply('550', "a\n<lone surrogate>"
 Proof. vm_compute. reflexivity. Qed.
 Example bad_reply_hyp :    (* "ok\n250 x\r\n": the first line is refused and consumed, the reply behind it stays *)
   reply_recv adigit aspace [111;107;10;50;53;48;32;120;13;10] [] = BadReply [50;53;48;32;120;13;10] [].
+Proof. vm_compute. reflexivity. Qed.
+Example non_ascii_code_refused :   (* "2" + fullwidth 5 (EF BC 95) + fullwidth 0 (EF BC 90) + " ok\r\n" then "250 x\r\n": BadReply, the line consumed *)
+  reply_recv adigit aspace [50;239;188;149;239;188;144;32;111;107;13;10;50;53;48;32;120;13;10] [] = BadReply [50;53;48;32;120;13;10] [].
 Proof. vm_compute. reflexivity. Qed.
